@@ -323,7 +323,7 @@ Proof.
   pose proof (inv_twice _ I) as Htw.
   destruct p as [|b|b c|b c|b e|b|b|b r|r].
   - (* W *)
-    destruct o as [h|h|h d|h d n]; (destruct (in_pool s b0) eqn:Ep; [|discriminate]); inversion St; subst;
+    destruct o as [h|h|h d|h d n|h d]; (destruct (in_pool s b0) eqn:Ep; [|discriminate]); inversion St; subst;
       (eapply inv_acquire; [exact I|exact En|apply in_pool_in; exact Ep|auto]).
   - (* GHave *)
     assert (G : forall h, (o = Get h \/ o = Head h) ->
@@ -347,7 +347,7 @@ Proof.
         + reflexivity.
         + right. eexists. split; [reflexivity|exact Hh].
         + cbn [pc_ok]. left; reflexivity. }
-    destruct o as [h|h|h d|h d n]; [apply (G h); auto|apply (G h); auto|discriminate|discriminate].
+    destruct o as [h|h|h d|h d n|h d]; [apply (G h); auto|apply (G h); auto|discriminate|discriminate|discriminate].
   - (* GFilled *)
     assert (St' : Some (mk s (ks s) (free s) (mem s) i (Resp b (get_resp c (mem s b))) (lin s)) = Some s')
       by (destruct o; exact St).
@@ -362,7 +362,12 @@ Proof.
     eapply inv_same; [exact I|exact En|reflexivity|reflexivity|reflexivity|left; auto|].
     exact Hpc.
   - (* PHave *)
-    destruct o as [h|h|h d|h d n]; try discriminate.
+    destruct o as [h|h|h d|h d n|h d]; try discriminate.
+    3:{ inversion St; subst.
+        eapply inv_same; [exact I|exact En|reflexivity|reflexivity| | |].
+        * intros b' N. apply upd_mem_other; exact N.
+        * right. eexists. split; [reflexivity|]. reflexivity.
+        * cbn [pc_ok]. left; reflexivity. }
     + inversion St; subst.
       eapply inv_same; [exact I|exact En|reflexivity|reflexivity| |left; auto|].
       * intros b' N. apply upd_mem_other; exact N.
@@ -374,7 +379,7 @@ Proof.
       * right. eexists. split; [reflexivity|]. reflexivity.
       * cbn [pc_ok]. left; reflexivity.
   - (* PRead *)
-    destruct o as [h|h|h d|h d n]; try discriminate.
+    destruct o as [h|h|h d|h d n|h d]; try discriminate.
     2:{ rewrite Hle in St. discriminate. }
     cbn [pc_ok] in Hpc. rewrite (Hpc h d eq_refl) in St.
     destruct (handle_put H (ks s) h d) as [r k'] eqn:Ehp. inversion St; subst.
